@@ -4,7 +4,7 @@ set -u
 patch="$1"; id="$2"; tier="${3:-quick}"
 cd /repo || exit 2
 if [ -n "$(git status --porcelain)" ]; then echo "repo not clean"; exit 2; fi
-if ! git apply --3way "$patch" 2>/tmp/apply.err; then echo "PATCH DOES NOT APPLY: $(cat /tmp/apply.err | head -3)"; git checkout -- . ; exit 3; fi
+if ! git apply --3way "$patch" 2>/tmp/apply.err; then echo "PATCH DOES NOT APPLY: $(cat /tmp/apply.err | head -3)"; git reset -q --hard HEAD; exit 3; fi
 git reset -q
 cd /verif && ./check "$id" --tier "$tier" > /tmp/try_seed.$id.log 2>&1; rc=$?
 git -C /repo checkout -- . ; git -C /repo clean -fdq
